@@ -23,7 +23,47 @@ def d2h(x):
     return "%016x" % struct.unpack("<Q", struct.pack("<d", x))[0]
 
 
+def gen_nearly_parallel(rng, cid):
+    """normals that are ALMOST parallel (1e-8 .. 3e-6 apart), values that disagree, sample points near the origin and the
+    box far away along the nearly free direction: one eigenvalue of AtA is non-zero but below the solver's relative cut-off,
+    so the returned position keeps the box centre's component along it and does NOT satisfy the normal equations -
+    the reported error must still be the QEF at the returned position (and non-negative)"""
+    n = rng.choice([2, 3])
+    ns = rng.choice([2, 2, 3, 4])
+    nrm0 = [rng.gauss(0, 1) for _ in range(n)]
+    if rng.random() < 0.5:
+        nrm0 = [0.0] * n; nrm0[rng.randrange(n)] = 1.0
+    norm = math.sqrt(sum(x * x for x in nrm0)) or 1.0
+    nrm0 = [x / norm for x in nrm0]
+    # a direction perpendicular to nrm0
+    t = [rng.gauss(0, 1) for _ in range(n)]
+    d = sum(a * b for a, b in zip(t, nrm0))
+    t = [a - d * b for a, b in zip(t, nrm0)]
+    tn = math.sqrt(sum(x * x for x in t)) or 1.0
+    t = [x / tn for x in t]
+    far = 10 ** rng.uniform(1, 6.5) * rng.choice([1, -1])
+    centre = [far * x + rng.uniform(-1, 1) for x in t]
+    half = rng.choice([1.0, 2.0, 0.5, rng.uniform(0.1, 4)])
+    lo = [c - half for c in centre]
+    hi = [c + half for c in centre]
+    eps = 10 ** rng.uniform(-8, -5.5)
+    vs = 10 ** rng.uniform(-4, 0)
+    toks = [cid, str(n), str(ns)]
+    for s_ in range(ns):
+        p = [rng.choice([0.0, rng.uniform(-1, 1)]) for _ in range(n)]
+        nrm = [a + (eps * rng.gauss(0, 1) if s_ else 0.0) for a in nrm0]
+        if rng.random() < 0.5:
+            nn = math.sqrt(sum(x * x for x in nrm))
+            nrm = [x / nn for x in nrm]
+        v = rng.choice([0.0, rng.uniform(-1, 1) * vs]) if s_ == 0 else rng.uniform(-1, 1) * vs
+        toks += [d2h(x) for x in p] + [d2h(x) for x in nrm] + [d2h(v)]
+    toks += [d2h(x) for x in lo] + [d2h(x) for x in hi]
+    return " ".join(toks)
+
+
 def gen_case(rng, cid):
+    if rng.random() < 0.15:
+        return gen_nearly_parallel(rng, cid)
     n = rng.choice([1, 2, 3])
     kind = rng.random()
     ns = rng.choice([0, 1, 1, 2, 3, 4, 6, 10])
@@ -139,7 +179,8 @@ def run(replay=None):
     ck.coverage["distinct_nontrivial"] = len(nontriv)
     ck.coverage["rule"] = ("sample sets of 0..10 samples in N = 1, 2, 3 (parallel, axis-aligned, degenerate / non-finite, random normals; "
                            "surface point inside or outside the box; a fifth of the cases plant the optimum 1e-11..1e-6 inside / outside a face, edge or "
-                           "corner, some in cells of size 1e-8..1e-5) x random boxes; non-trivial = the unconstrained optimum lies "
+                           "corner, some in cells of size 1e-8..1e-5; 15 % have nearly parallel normals (1e-8..3e-6 apart) with disagreeing values, samples near "
+                           "the origin and the box 10..3e6 away along the nearly free direction) x random boxes; non-trivial = the unconstrained optimum lies "
                            "outside the box so the dimension search runs")
     ck.coverage["samples"] = lines[:2]
     ck.coverage["traces_validated_against_impl"] = stats["search_equal"]
